@@ -1149,3 +1149,218 @@ pub fn rt_tok(w: &W, human: bool) -> Result<W, String> {
     let shown = format!("{:?}", tokens);
     from_tokens(tokens, human).map_err(|e| format!("deserialize of own output failed: {e}; tokens={shown}"))
 }
+
+// ---------------------------------------------------------------------------------------------
+// Alphabets and state enumeration (shared by the engines)
+
+pub fn alphabet(name: &str) -> Vec<Op> {
+    use Op::*;
+    use Tgt::*;
+    match name {
+        "alloc" => vec![
+            Insert { mask: 1, rev: false },
+            Extend { mask: 1, n: 0, style: 0 },
+            Extend { mask: 1, n: 1, style: 0 },
+            Extend { mask: 1, n: 2, style: 0 },
+            Extend { mask: 1, n: 3, style: 0 },
+            Remove(Lo),
+            Remove(Mid),
+            Remove(Hi),
+            Clear,
+            RtJson,
+        ],
+        "shape" => {
+            let mut v = vec![Insert { mask: 0, rev: false }, Insert { mask: 5, rev: true }, Insert { mask: 15, rev: true }];
+            for t in [Lo, Mid] {
+                for c in 0..3u8 {
+                    v.push(Add(t, c));
+                    v.push(RemoveComp(t, c));
+                }
+            }
+            v.extend([Remove(Lo), MutQ(3), Shrink]);
+            v
+        }
+        "copy" => vec![
+            Insert { mask: 1, rev: false },
+            Insert { mask: 5, rev: true },
+            Extend { mask: 5, n: 2, style: 0 },
+            Remove(Lo),
+            RemoveComp(Lo, 0),
+            Shrink,
+            CloneSelf,
+            Snapshot,
+            CloneFromAux,
+            CloneFromEmpty,
+            SwapAux,
+            RtJson,
+            RtTok { human: false },
+        ],
+        "zbig" => vec![
+            Insert { mask: 6, rev: false },
+            Extend { mask: 6, n: 0, style: 0 },
+            Extend { mask: 6, n: 2, style: 0 },
+            Extend { mask: 6, n: 3, style: 2 },
+            Extend { mask: 4, n: 2, style: 1 },
+            Remove(Lo),
+            Remove(Hi),
+            Reserve { mask: 6, n: 2 },
+            Shrink,
+            Clear,
+            Add(Lo, 3),
+            RemoveComp(Lo, 2),
+        ],
+        "all" => {
+            let mut v = vec![];
+            for (mask, rev) in [(0, false), (1, false), (2, false), (5, true), (10, true), (15, true), (15, false)] {
+                v.push(Insert { mask, rev });
+            }
+            for (mask, n, style) in [(1, 0, 0), (1, 2, 0), (5, 3, 0), (5, 2, 1), (15, 2, 2), (2, 2, 0), (0, 2, 2), (12, 1, 1)] {
+                v.push(Extend { mask, n, style });
+            }
+            v.extend([Remove(Lo), Remove(Mid), Remove(Hi), RemoveStale, Clear]);
+            for c in 0..4u8 {
+                v.push(Add(Lo, c));
+                v.push(RemoveComp(Lo, c));
+            }
+            v.extend([Add(Mid, 0), RemoveComp(Mid, 3), MutQ(0), MutQ(1), MutQ(2), MutQ(3), MutEntry(Lo), MutEntry(Mid)]);
+            v.extend([Reserve { mask: 5, n: 2 }, Reserve { mask: 15, n: 2 }, Shrink]);
+            v.extend([CloneSelf, Snapshot, CloneFromAux, CloneFromEmpty, SwapAux, RtJson, RtTok { human: false }, RtTok { human: true }]);
+            v.extend([ResSet(0), ResSet(1), ResSet(2)]);
+            v
+        }
+        "twin" => vec![
+            Insert { mask: 1, rev: false },
+            Insert { mask: 14, rev: true },
+            Extend { mask: 1, n: 2, style: 0 },
+            Extend { mask: 5, n: 1, style: 0 },
+            Remove(Lo),
+            Remove(Hi),
+            Clear,
+            Add(Lo, 1),
+            RemoveComp(Lo, 0),
+            Shrink,
+            Twin(0),
+            Twin(1),
+            Twin(2),
+            RtJson,
+            CloneSelf,
+            MutQ(0),
+            ResSet(2),
+        ],
+        "ctwin" => vec![
+            Insert { mask: 1, rev: false },
+            Insert { mask: 14, rev: true },
+            Extend { mask: 5, n: 2, style: 0 },
+            Remove(Lo),
+            Clear,
+            Add(Lo, 2),
+            RemoveComp(Lo, 0),
+            Shrink,
+            Twin(3),
+            Snapshot,
+            CloneFromAux,
+            SwapAux,
+            MutQ(0),
+            ResSet(0),
+        ],
+        "follow" => vec![
+            Insert { mask: 5, rev: false },
+            Insert { mask: 15, rev: true },
+            Extend { mask: 1, n: 2, style: 0 },
+            Remove(Lo),
+            Remove(Hi),
+            Clear,
+            Add(Lo, 1),
+            RemoveComp(Lo, 0),
+            MutQ(0),
+            Shrink,
+            ResSet(2),
+            RtJson,
+        ],
+        "res" => vec![
+            Insert { mask: 9, rev: true },
+            Remove(Lo),
+            Clear,
+            MutQ(0),
+            CloneSelf,
+            Snapshot,
+            CloneFromAux,
+            CloneFromEmpty,
+            SwapAux,
+            RtJson,
+            RtTok { human: false },
+            ResSet(0),
+            ResSet(1),
+            ResSet(2),
+            Shrink,
+        ],
+        "stale" => vec![
+            Insert { mask: 1, rev: false },
+            Insert { mask: 8, rev: false },
+            Extend { mask: 1, n: 2, style: 0 },
+            Remove(Lo),
+            Remove(Mid),
+            RemoveStale,
+            Clear,
+            Add(Lo, 3),
+            RemoveComp(Lo, 0),
+            Shrink,
+            CloneSelf,
+            RtTok { human: false },
+        ],
+        _ => panic!("unknown alphabet {name}"),
+    }
+}
+
+/// Representative histories of every state reachable within `depth` operations (canonical-state
+/// de-duplication, breadth first, lexicographically smallest history per state).  Must be called on a
+/// thread with an arena; runs one arena epoch per transition.
+pub fn enumerate_states(ops: &[Op], depth: usize) -> Vec<Vec<u8>> {
+    let mut seen = std::collections::HashSet::new();
+    let mut out: Vec<Vec<u8>> = vec![vec![]];
+    let mut frontier: Vec<Vec<u8>> = vec![vec![]];
+    for _ in 0..depth {
+        let mut next = Vec::new();
+        for h in &frontier {
+            for oi in 0..ops.len() as u8 {
+                let mut h2 = h.clone();
+                h2.push(oi);
+                arena::begin(0);
+                comp::ledger_begin();
+                let key = {
+                    let mut ex = Exec::new();
+                    let mut chk = Checker::default();
+                    let mut ok = true;
+                    for &o in &h2 {
+                        if ex.apply(&ops[o as usize], &mut chk) == Step::Disabled {
+                            ok = false;
+                            break;
+                        }
+                    }
+                    if ok { Some(crate::util::hash128(&ex.canon())) } else { None }
+                };
+                drop(comp::ledger_end());
+                let _ = arena::end();
+                if let Some(k) = key {
+                    if seen.insert(k) {
+                        next.push(h2.clone());
+                        out.push(h2);
+                    }
+                }
+            }
+        }
+        frontier = next;
+    }
+    out
+}
+
+pub fn build_exec(ops: &[Op], hist: &[u8]) -> Exec {
+    let mut ex = Exec::new();
+    let mut chk = Checker::default();
+    for &oi in hist {
+        if ex.apply(&ops[oi as usize], &mut chk) == Step::Disabled {
+            panic!("machinery: disabled op while rebuilding a state");
+        }
+    }
+    ex
+}
